@@ -613,7 +613,7 @@ def evaluate_payload_template(input, context, template):
             # https://docs.aws.amazon.com/step-functions/latest/dg/amazon-states-language-intrinsic-functions.html#asl-intrsc-func-string-operation
             # so we can't simple use Python's split() and use regex instead.
             try:
-                return re.split('['+ separators + ']', data)
+                return re.split('['+ re.escape(separators) + ']', data)
             except Exception as e:
                 raise IntrinsicFailure(
                     "States.StringSplit failed with {}.".format(e)
